@@ -9,6 +9,7 @@ From WG Require Import BV.RefSel.
 From WG Require Import BV.Bits.
 From WG Require Import Par.Splice.
 From WG Require Import Flags.Props.
+From WG Require Import BV.Access.
 
 Extraction Language OCaml.
 
@@ -56,4 +57,14 @@ Extraction "model.ml"
   representable
   java_from_props
   version
+  acc_ra
+  acc_ra_merge
+  acc_outdegree
+  acc_iter_from
+  acc_offdeg
+  acc_offdeg_from
+  acc_next_successors
+  seq_iter_from
+  ra_labels
+  seek_bits
 .
